@@ -713,3 +713,190 @@ def oracle_files(im, rng, n: int, base: str) -> T.List[Viol]:
 def contains_run(hay: T.List[str], needle: T.List[str]) -> bool:
     n = len(needle)
     return any(hay[i:i + n] == needle for i in range(len(hay) - n + 1))
+
+
+# ---------------------------------------------------------------- string literals: escapes x literal kinds
+
+OCT = '01234567'
+HEX = '0123456789abcdefABCDEF'
+SIMPLE_ESC = {'\\': '\\', "'": "'", 'a': '\a', 'b': '\b', 'f': '\f', 'n': '\n', 'r': '\r', 't': '\t', 'v': '\v'}
+
+
+def ref_decode(raw: str) -> str:
+    """reference decoder written from docs/markdown/Syntax.md ("Strings"): the listed escape sequences are
+    replaced, anything else after a backslash leaves the backslash in the string"""
+    import unicodedata
+    out = []
+    i, n = 0, len(raw)
+    while i < n:
+        c = raw[i]
+        if c != '\\' or i + 1 >= n:
+            out.append(c)
+            i += 1
+            continue
+        d = raw[i + 1]
+        if d in SIMPLE_ESC:
+            out.append(SIMPLE_ESC[d])
+            i += 2
+        elif d in OCT:
+            j = i + 1
+            while j < n and j < i + 4 and raw[j] in OCT:
+                j += 1
+            out.append(chr(int(raw[i + 1:j], 8)))
+            i = j
+        elif d == 'x' and i + 3 < n + 0 and all(ch in HEX for ch in raw[i + 2:i + 4]) and len(raw[i + 2:i + 4]) == 2:
+            out.append(chr(int(raw[i + 2:i + 4], 16)))
+            i += 4
+        elif d == 'u' and len(raw[i + 2:i + 6]) == 4 and all(ch in HEX for ch in raw[i + 2:i + 6]):
+            out.append(chr(int(raw[i + 2:i + 6], 16)))
+            i += 6
+        elif d == 'U' and len(raw[i + 2:i + 10]) == 8 and all(ch in HEX for ch in raw[i + 2:i + 10]) \
+                and int(raw[i + 2:i + 10], 16) <= 0x10FFFF:
+            out.append(chr(int(raw[i + 2:i + 10], 16)))
+            i += 10
+        elif d == 'N' and raw[i + 2:i + 3] == '{' and '}' in raw[i + 3:] and raw.index('}', i + 3) > i + 3:
+            j = raw.index('}', i + 3)
+            try:
+                out.append(unicodedata.lookup(raw[i + 3:j]))
+                i = j + 1
+            except KeyError:
+                out.append(c)
+                i += 1
+        else:
+            out.append(c)        # unrecognised: the backslash stays
+            i += 1
+    return ''.join(out)
+
+
+def ref_substitute(text: str, variables: T.Dict[str, str]) -> T.Optional[str]:
+    """f-string placeholders `@name@` (identifier syntax) replaced by the variable's text; None = unknown name"""
+    import re
+    missing = []
+
+    def rep(m: T.Any) -> str:
+        if m.group(1) not in variables:
+            missing.append(m.group(1))
+            return ''
+        return variables[m.group(1)]
+    res = re.sub(r'@([_a-zA-Z][_0-9a-zA-Z]*)@', rep, text)
+    return None if missing else res
+
+
+KINDS = {'s': ("'", "'"), 'm': ("'''", "'''"), 'fs': ("f'", "'"), 'fm': ("f'''", "'''")}
+ESCAPE_FORMS = ['\\\\', "\\'", '\\a', '\\b', '\\f', '\\n', '\\r', '\\t', '\\v', '\\0', '\\7', '\\41', '\\101', '\\377', '\\x41',
+                '\\x7e', '\\xe9', '\\u20ac', '\\u0041', '\\U0001F600', '\\U00000041', '\\N{EURO SIGN}', '\\N{LATIN SMALL LETTER A}',
+                '\\q', '\\x4', '\\u12', '\\N{}', '\\8', '\\ ']
+
+
+def literal_kind(text: str) -> T.Optional[str]:
+    """which of the four documented literal forms a piece of source text is (by its delimiters only)"""
+    if text.startswith("f'''") and text.endswith("'''") and len(text) >= 7:
+        return 'fm'
+    if text.startswith("'''") and text.endswith("'''") and len(text) >= 6:
+        return 'm'
+    if text.startswith("f'") and text.endswith("'") and len(text) >= 3:
+        return 'fs'
+    if text.startswith("'") and text.endswith("'") and len(text) >= 2:
+        return 's'
+    return None
+
+
+def expected_value(kind: str, content: str, variables: T.Dict[str, str]) -> T.Optional[str]:
+    """the value the reference prescribes for a literal with this content: escapes decoded in '...' and f'...',
+    nothing decoded in '''...''' and f'''...'''; placeholders of the f forms substituted afterwards"""
+    text = ref_decode(content) if kind in ('s', 'fs') else content
+    if kind in ('fs', 'fm'):
+        return ref_substitute(text, variables)
+    return text
+
+
+def string_token_kinds(im) -> T.Set[str]:
+    """the string token kinds of the CURRENT lexer (token_specification names mentioning `string`)"""
+    return {name for name, _re in im.mparser.Lexer('').token_specification if 'string' in name}
+
+
+def oracle_escape_product(im) -> T.Tuple[T.List[Viol], T.Set[str], int]:
+    """literal kind x escape form x position: the evaluated value (variable and message()) must be what the
+    reference decoder says.  -> (violations, token kinds reached, programs)"""
+    out: T.List[Viol] = []
+    reached: T.Set[str] = set()
+    n = 0
+    variables = {'who': 'W'}
+    for kind, (op, cl) in KINDS.items():
+        for esc in ESCAPE_FORMS:
+            positions = {'start': esc + 'q', 'middle': 'p' + esc + 'q', 'end': 'p' + esc, 'before-var': 'p' + esc + '@who@',
+                         'after-var': '@who@' + esc + 'q', 'doubled': 'p\\\\' + esc + 'q', 'twice': esc + esc + 'q',
+                         'windows-path': 'C:\\temp\\new\\' + '@who@' + esc}
+            for pos, content in positions.items():
+                if kind in ('m', 'fm') and (content.endswith("'") or "'''" in content):
+                    continue
+                if kind in ('s', 'fs') and esc == '\\ ' and pos == 'end':
+                    pass
+                if kind in ('s', 'fs') and content.endswith('\\') and not content.endswith('\\\\'):
+                    continue
+                if kind in ('fs',) and '@' in ref_decode(content).replace('@who@', ''):
+                    continue   # an escape producing `@` next to identifier characters: not specified anywhere
+                lit = op + content + cl
+                code = f"who = 'W'\nx = {lit}\nmessage(x)\n"
+                try:
+                    toks = [t.tid for t in im.mparser.Lexer(lit).lex('x')]
+                    reached.update(t for t in toks if 'string' in t)
+                except Exception:
+                    pass
+                want = expected_value(kind, content, variables)
+                ok, vs, ans = ev(im, code)
+                n += 1
+                if want is None:
+                    continue
+                if not ok or vs.get('x') != want or im.messages[-1:] != [want]:
+                    got = vs.get('x') if vs else ans
+                    out.append((f'escape:{kind}:{esc}:{pos}',
+                                f'literal {lit!r} evaluates to {got!r}, the reference prescribes {want!r}',
+                                {'program': code, 'answer': ans, 'expected': want}))
+    return out, reached, n
+
+
+def iter_nodes(mp, node: T.Any) -> T.Iterator[T.Any]:
+    """every BaseNode below `node` (reflection over attributes, so new node kinds are walked too)"""
+    seen: T.Set[int] = set()
+    stack = [node]
+    while stack:
+        n = stack.pop()
+        if id(n) in seen:
+            continue
+        seen.add(id(n))
+        if isinstance(n, mp.BaseNode):
+            yield n
+            for k, v in vars(n).items():
+                if k == 'whitespaces':
+                    continue
+                stack.append(v)
+        elif isinstance(n, (list, tuple)):
+            stack.extend(n)
+        elif isinstance(n, dict):
+            stack.extend(n.keys())
+            stack.extend(n.values())
+
+
+def check_string_nodes(im, code: str, ast: T.Any) -> T.List[Viol]:
+    """for every string literal of a parsed program: the value the parser hands to the interpreter must be
+    the reference decoding of the literal's SOURCE TEXT (kind taken from its delimiters, not from parser flags)"""
+    out: T.List[Viol] = []
+    mp = im.mparser
+    for n in iter_nodes(mp, ast):
+        if type(n) is not mp.StringNode:
+            continue
+        span = getattr(n, 'bytespan', None)
+        if not span:
+            continue
+        text = code[span[0]:span[1]]
+        kind = literal_kind(text)
+        if kind is None:
+            continue
+        op, cl = KINDS[kind]
+        content = text[len(op):len(text) - len(cl)]
+        want = ref_decode(content) if kind in ('s', 'fs') else content
+        if n.value != want:
+            out.append((f'literal-value:{kind}:{text!r}', f'the {kind} literal {text!r} is handed to the interpreter as {n.value!r}, '
+                        f'the reference prescribes {want!r} before substitution', {'program': code, 'literal': text}))
+    return out
